@@ -346,6 +346,7 @@ def raw_write_discipline(ctx, cfg, body, rule):
     owners = owner_adts(db)
     cl = Classifier(db)
     ev = []
+    misplaced = []
     for c in a.calls:
         if c.fn in ("core::ptr::write", "core::mem::MaybeUninit::<T>::write") and c.args[0][0] == "P" and c.targs and has_generic(c.targs[0]):
             base = c.args[0][1]
@@ -366,6 +367,19 @@ def raw_write_discipline(ctx, cfg, body, rule):
                             gov = n
                     elif base == ("field", ("local", n), (o["array"],)):
                         gov = n
+            if gov is not None and not any(isinstance(x, tuple) and x and x[0] == "elemoff" for x in c.args[0][2].atoms()):
+                # a slot addressed by explicit arithmetic (not the item of a traversal, whose order the loop / closure rules decide): it must be the
+                # slot the owner's position designates - the one the coming advance will claim - or the claimed range and the written slots part
+                from .absint import State
+                from .poly import prove as _prove
+                S_ = a.tenv.size(c.targs[0])
+                hit = False
+                for fpos in owners[local_adt(a, gov)]["pos"]:
+                    pv = a.read_cell(State(c.mem, c.facts), ("local", gov), (fpos,), {"k": "prim", "n": "usize"})
+                    if pv[0] == "I" and S_ is not None and _prove(("==", c.args[0][2] - pv[1] * S_), a.poly_facts(c.facts)):
+                        hit = True
+                if not hit:
+                    misplaced.append(c)
             ev.append((c.bb, 10 ** 6, "write", gov, c))
         else:
             k = cl.classify(c, body)
@@ -414,6 +428,8 @@ def raw_write_discipline(ctx, cfg, body, rule):
     n = 0
     for i, w in enumerate(writes):
         n += 1
+    for j, c in enumerate(misplaced):
+        ctx.ob(rule, "%s#slot#%d" % (body["key"], j), REFUTED, "an element is written at byte %r of a tracked owner's storage, which is not the slot its position designates: the range the owner claims and the slots written part ways" % (c.args[0][2],), at=c.at, cfg=cfg)
     if bad:
         for (bbk, fn), (e, pend) in sorted(bad.items(), key=lambda kv: kv[0][0]):
             unowned = any(p[0] is None for p in pend)
